@@ -88,10 +88,24 @@ struct Ctx {
 
 thread_local! {
     static CTX: RefCell<Option<Ctx>> = RefCell::new(None);
+    /// how often the current operation passed the pre-lock point of `SharedString::new`
+    static NEW_YIELDS: std::cell::Cell<usize> = std::cell::Cell::new(0);
 }
 
 fn on_yield(site: hook::Site) {
-    if site != hook::Site::DropBeforeLock {
+    if site == hook::Site::NewBeforeLock {
+        // `new` takes the table lock once: everything before it is thread-local, so the first pre-lock point is
+        // where the granted step begins.  A second one within the same call means look-up and insertion are no
+        // longer one critical section: it becomes a scheduling point of its own (the model's single `New` step
+        // then disagrees, and other threads can be interleaved between the two halves).
+        let n = NEW_YIELDS.with(|c| {
+            c.set(c.get() + 1);
+            c.get()
+        });
+        if n < 2 {
+            return;
+        }
+    } else if site != hook::Site::DropBeforeLock {
         return;
     }
     CTX.with(|c| {
@@ -123,6 +137,7 @@ fn thread_main(prog: Vec<IOp>, grant: Receiver<()>, done: Sender<(Snap, bool)>) 
         if !alive {
             return;
         }
+        NEW_YIELDS.with(|c| c.set(0));
         match op {
             IOp::New(c, slot) => {
                 let h = SharedString::new(content_bytes(c));
@@ -469,6 +484,116 @@ pub fn soak(seed: u64, threads: usize, ops: usize) -> Vec<String> {
         if r >= 20000 && ops < 1_000_000 {
             break;
         }
+    }
+    out.extend(racing_interns(seed, 4, (ops / 10).clamp(2000, 200_000)));
+    out
+}
+
+/// racing first interns: `threads` threads leave a spin barrier together and intern the same, not yet
+/// live, contents; while all of them hold their handle the handles must share one buffer (the clause
+/// "all live handles with equal contents share a single buffer"), and after all of them dropped it the
+/// table must be empty.  This reaches a `new` whose look-up and insertion are not one critical section,
+/// which the step scheduler cannot see when the second lock acquisition carries no yield hook.
+fn racing_interns(seed: u64, threads: usize, rounds: usize) -> Vec<String> {
+    use std::sync::atomic::{AtomicUsize, Ordering};
+    use std::sync::Arc;
+    let go = Arc::new(AtomicUsize::new(0)); // round that may start (1-based)
+    let interned = Arc::new(AtomicUsize::new(0));
+    let release = Arc::new(AtomicUsize::new(0)); // round whose handles may be dropped
+    let dropped = Arc::new(AtomicUsize::new(0));
+    let ptrs: Arc<Vec<AtomicUsize>> = Arc::new((0..threads).map(|_| AtomicUsize::new(0)).collect());
+    let intact = Arc::new(AtomicUsize::new(0));
+    let mut joins = Vec::new();
+    for t in 0..threads {
+        let (go, interned, release, dropped, ptrs, intact) = (go.clone(), interned.clone(), release.clone(), dropped.clone(), ptrs.clone(), intact.clone());
+        joins.push(std::thread::spawn(move || {
+            for r in 1..=rounds {
+                while go.load(Ordering::Acquire) < r {
+                    std::hint::spin_loop();
+                }
+                if go.load(Ordering::Acquire) == usize::MAX {
+                    return;
+                }
+                let content: Vec<u8> = format!("intern-race-{seed}-{r}").into_bytes();
+                let h = SharedString::new(content.clone());
+                ptrs[t].store(h.data().as_ptr() as usize, Ordering::Release);
+                if h.data() != content.as_slice() {
+                    intact.fetch_add(1, Ordering::AcqRel);
+                }
+                interned.fetch_add(1, Ordering::AcqRel);
+                while release.load(Ordering::Acquire) < r {
+                    std::hint::spin_loop();
+                }
+                drop(h);
+                dropped.fetch_add(1, Ordering::AcqRel);
+            }
+        }));
+    }
+    let mut out = Vec::new();
+    let mut split = 0usize;
+    let mut leaks = 0usize;
+    for r in 1..=rounds {
+        go.store(r, Ordering::Release);
+        let t0 = std::time::Instant::now();
+        let mut stuck = false;
+        while interned.load(Ordering::Acquire) < r * threads {
+            std::hint::spin_loop();
+            if t0.elapsed() > Duration::from_secs(30) {
+                stuck = true;
+                break;
+            }
+        }
+        if stuck {
+            out.push(format!("C18 soak: concurrent interns of one contents did not complete within 30 s (round {r}): deadlock or panic"));
+            go.store(usize::MAX, Ordering::Release);
+            release.store(usize::MAX, Ordering::Release);
+            return out;
+        }
+        let p0 = ptrs[0].load(Ordering::Acquire);
+        let distinct = ptrs.iter().filter(|p| p.load(Ordering::Acquire) != p0).count();
+        if distinct != 0 {
+            split += 1;
+            if split == 1 {
+                out.push(format!(
+                    "C18 soak: {threads} threads interned the same fresh contents concurrently (round {r}); while all handles were live {} of them did not share the first one's buffer",
+                    distinct
+                ));
+            }
+        }
+        release.store(r, Ordering::Release);
+        let t1 = std::time::Instant::now();
+        while dropped.load(Ordering::Acquire) < r * threads {
+            std::hint::spin_loop();
+            if t1.elapsed() > Duration::from_secs(30) {
+                out.push(format!("C18 soak: dropping concurrently interned handles did not complete within 30 s (round {r}): deadlock or panic"));
+                go.store(usize::MAX, Ordering::Release);
+                release.store(usize::MAX, Ordering::Release);
+                return out;
+            }
+        }
+        let l = hook::table_len();
+        if l != 0 {
+            leaks += 1;
+            if leaks == 1 {
+                out.push(format!("C18 soak: after {threads} concurrent interns of one contents were all dropped (round {r}) the intern table still has {l} entries"));
+            }
+        }
+        if split > 3 || leaks > 3 {
+            // let the workers run out quickly
+            go.store(usize::MAX, Ordering::Release);
+            release.store(usize::MAX, Ordering::Release);
+            break;
+        }
+    }
+    go.store(usize::MAX, Ordering::Release);
+    release.store(usize::MAX, Ordering::Release);
+    for j in joins {
+        if j.join().is_err() {
+            out.push("C18 soak: a thread panicked while interning concurrently".to_string());
+        }
+    }
+    if intact.load(Ordering::Acquire) != 0 {
+        out.push("C18 soak: a concurrently interned handle exposes foreign bytes".to_string());
     }
     out
 }
